@@ -46,6 +46,7 @@ CODE_GUARDS = ("Crng.Tie.CodeGuards", ["destination_guards_iff", "grafanaNet_gua
 CODE_CFG = ("Crng.Tie.CodeCfg", ["initAggregation_eq", "initRewrite_eq", "initBlacklist_eq", "agg_sub_wins"])
 CODE_READAGG = ("Crng.Tie.CodeReadAgg", ["readAddAgg_eq", "loop1_eq", "loop2_eq", "body1_eq", "body2_eq", "mSet_commute", "trailing_defaults"])
 CODE_AGREE = ("Crng.Tie.CodeAgree", ["agg_cmd_toml_agree", "readAddBlack_eq", "black_cmd_toml_agree", "rewriter_cmd_toml_agree", "readRouteOpts_eq", "loop3_eq", "body3_eq"])
+CODE_PICKLE = ("Crng.Tie.CodePickleItems", ["items_trace", "item_independence", "forRange_each"])
 CODE_AGG = ("Crng.Tie.CodeAgg", ["addMaybe_eq", "withheld_consumed", "no_dropraw_never_withholds"])
 
 TRUSTED_BASE = [
